@@ -444,3 +444,66 @@ M.loop(P + ':bad_undeclared_carried', 0, invariant=lambda _i, xs: True, modifies
 # the undeclared name is unbound at the loop head: the read is a limit of the verifier (unsupported), nothing is
 # proved about the function
 EXPECTED_UNDECIDED = [P + ':bad_undeclared_carried: unsupported: the loop carries a value in']
+
+
+# ---- symbolic maps: len (cardinality of the key set), optional values, dict comprehension that copies (F15)
+
+def ok_map_len(d, k):
+    """len of a dict of unbounded contents; a key- and value-preserving comprehension over items() is a copy"""
+    n = len(d)
+    e = {key: v for key, v in d.items()}
+    if k in e:
+        was = e[k]
+        del e[k]
+        return n - len(e), was, len(e) == 0
+    e[k] = None
+    return len(e) - n, e[k], len(e) == 0
+
+
+def bad_map_len(d, k):
+    e = dict(d)
+    e[k] = None
+    return len(e) - len(d)
+
+
+def bad_map_comp_changes_keys(d):
+    return {key + '!': v for key, v in d.items()}
+
+
+M.contract(P + ':ok_map_len', params=dict(d=MapOf(Str, Opt(Int)), k=Str), ghosts=dict(q=Str), old=lambda d: dict(d),
+           ensures={'one key more or less': lambda result: result[0] == 1,
+                    'optional values': lambda d, k, result: (result[1] is None) if k not in d else
+                    ((result[1] is None) == (d[k] is None) and (result[1] is None or result[1] == d[k])),
+                    'empty iff no key': lambda d, k, q, result:
+                    (not result[2]) or k in d or q not in d,
+                    'the map itself is not changed': lambda d, old: d == old}, raises_only=())
+M.contract(P + ':bad_map_len', params=dict(d=MapOf(Str, Opt(Int)), k=Str), returns=Int,
+           ensures={'one-more': lambda result: result == 1}, raises_only=())
+M.contract(P + ':bad_map_comp_changes_keys', params=dict(d=MapOf(Str, Int)), cover=False,
+           ensures={'never-false': lambda result: True}, raises_only=())
+EXPECTED_REFUTED.add(P + ':bad_map_len : ensures[one-more]')
+EXPECTED_UNDECIDED.append(P + ':bad_map_comp_changes_keys: unsupported: dict comprehension over a symbolic map that')
+
+
+# ---- items_of(map(f, xs)) over a symbolic sequence: the element-wise image, when f is pure and total (F15)
+from contracts.common import items_of
+
+def ok_lazy_map(xs):
+    return map(_twice, xs)
+
+
+def bad_lazy_map(xs):
+    return map(_twice, xs)
+
+
+def _twice(x):
+    return 2 * x
+
+
+M.contract(P + ':ok_lazy_map', params=dict(xs=ListOf(Int)),
+           ensures={'image': lambda xs, result: len(items_of(result)) == len(xs)
+                    and forall_range(0, len(xs), lambda k: items_of(result)[k] == 2 * xs[k])}, raises_only=())
+M.contract(P + ':bad_lazy_map', params=dict(xs=ListOf(Int)),
+           ensures={'image+1': lambda xs, result:
+           forall_range(0, len(xs), lambda k: items_of(result)[k] == 2 * xs[k] + 1)}, raises_only=())
+EXPECTED_REFUTED.add(P + ':bad_lazy_map : ensures[image+1]')
